@@ -269,6 +269,87 @@ finally:
     return (ok, detail)
 
 
+# ------------------------------------------------------------------ real iCalendar bodies, real parser, real stores
+def _ic(uidline):
+    return (b"BEGIN:VCALENDAR\r\nVERSION:2.0\r\nPRODID:-//x//y//EN\r\nBEGIN:VEVENT\r\n" + uidline +
+            b"DTSTAMP:20200101T000000Z\r\nDTSTART:20200101T000000Z\r\nEND:VEVENT\r\nEND:VCALENDAR\r\n")
+
+
+# (UID line of the first member, UID line of the second, same UID?)
+UID_PAIRS = [
+    (b"UID:abc\r\n", b"UID:abc\r\n", True),
+    (b"UID:abc\r\n", b"UID:ABC\r\n", False),                      # UIDs are case-sensitive
+    (b"UID:a\\,b\r\n", b"UID:a\\,b\r\n", True),                   # escaped comma
+    (b"UID:a b\r\n", b"UID:a b\r\n", True),                       # blank
+    (b"UID:" + b"x" * 70 + b"\r\n " + b"y" * 10 + b"\r\n", b"UID:" + b"x" * 70 + b"y" * 10 + b"\r\n", True),  # folded vs unfolded
+    (b"UID:caf\xc3\xa9\r\n", b"UID:caf\xc3\xa9\r\n", True),       # non-ASCII
+    (b"UID:a\\nb\r\n", b"UID:a\\nb\r\n", True),                   # escaped line feed
+    (b"UID;X-P=1:abc\r\n", b"UID:abc\r\n", True),                 # a parameter does not change the UID
+    (b"UID:abc\r\n", b"UID:abd\r\n", False),
+]
+
+
+def body_real_uids(pi, vdir, delete_first):
+    """Real iCalendar bodies whose UIDs need the real parser to compare (escapes, folding, parameters, case,
+    non-ASCII) on the real BareGitStore (MemoryRepo) and the real VdirStore: the second member is refused exactly
+    when it carries the first one's UID - unless the first was deleted before, which frees the UID."""
+    from xv.core import picks, untraced
+    (u1, u2, same), vdir, delete_first = picks((pi, vdir, delete_first), (UID_PAIRS, "bool", "bool"))
+    with untraced():
+        import shutil
+        import tempfile
+        ns = _REAL
+        d = tempfile.mkdtemp(prefix="xv-c06-")
+        try:
+            store = ns["vdir"].VdirStore.create(d + "/c") if vdir else ns["git"].BareGitStore.create_memory()
+            store.load_extra_file_handler(ns["icalendar"].ICalendarFile)
+            store.import_one("a.ics", "text/calendar", [_ic(u1)], message="m")
+            store.import_one("z.ics", "text/calendar", [_ic(b"UID:other\r\n")], message="m")  # warms the uid maps
+            if delete_first:
+                store.delete_one("a.ics", message="m")
+            try:
+                store.import_one("b.ics", "text/calendar", [_ic(u2)], message="m")
+                refused = False
+            except ns["store"].DuplicateUidError:
+                refused = True
+            want = same and not delete_first
+            names = sorted(n for (n, ct, e) in store.iter_with_etag())
+            exp_names = sorted((["a.ics"] if not delete_first else []) + ["z.ics"] + ([] if want else ["b.ics"]))
+            return (refused == want and names == exp_names, "refused" if want else "accepted")
+        finally:
+            shutil.rmtree(d, ignore_errors=True)
+
+
+def _load_real():
+    import importlib
+    import sys
+    out = {}
+    saved = {k: v for k, v in sys.modules.items() if k == "xandikos" or k.startswith("xandikos.")}
+    for k in list(saved):
+        del sys.modules[k]
+    try:
+        out["store"] = importlib.import_module("xandikos.store")
+        out["git"] = importlib.import_module("xandikos.store.git")
+        out["vdir"] = importlib.import_module("xandikos.store.vdir")
+        out["icalendar"] = importlib.import_module("xandikos.icalendar")
+    finally:
+        for k in [k for k in sys.modules if k == "xandikos" or k.startswith("xandikos.")]:
+            del sys.modules[k]
+        sys.modules.update(saved)
+    return out
+
+
+_REAL = _load_real()
+
+
+def h_real_uids(pi: int, vdir: bool, delete_first: bool) -> bool:
+    """
+    pre: 0 <= pi < len(UID_PAIRS)
+    post: _
+    """
+    return run(body_real_uids, pi, vdir, delete_first)
+
+
 _B = {"quick": {"n": 2, "two": False, "slen": 2, "hlen": 3}, "thorough": {"n": 3, "two": True, "slen": 3, "hlen": 4}}
 
 HARNESSES = [
@@ -293,6 +374,14 @@ HARNESSES = [
                      "xandikos.store.git.GitStore.import_one", "xandikos.store.git.BareGitStore.delete_one",
                      "xandikos.store.git.TreeGitStore.delete_one", "xandikos.store.vdir.VdirStore._scan_uids",
                      "xandikos.store.vdir.VdirStore.delete_one", "xandikos.store.vdir.VdirStore.import_one"]),
+    Harness("real_uids", h_real_uids, body_real_uids, classes=["refused", "accepted"], budget={"quick": 45, "thorough": 90},
+            describe="9 pairs of real iCalendar bodies whose UIDs need the real parser to compare (escapes, folding, a "
+                     "parameter, case, non-ASCII) on the real BareGitStore over a MemoryRepo and the real VdirStore, with or "
+                     "without deleting the first member: refused exactly when another live member holds the UID; exhaustive "
+                     "over the corpus; nothing stubbed",
+            encodes=["xandikos.icalendar.ICalendarFile.get_uid", "xandikos.icalendar.ICalendarFile.normalized",
+                     "xandikos.store.git.GitStore._check_duplicate", "xandikos.store.git.GitStore._scan_uids",
+                     "xandikos.store.vdir.VdirStore._check_duplicate", "xandikos.store.vdir.VdirStore._scan_uids"]),
     Harness("get_uid", h_get_uid, body_get_uid, classes=["none", "first", "second"], bounds=_B,
             budget={"quick": 40, "thorough": 240},
             describe="ICalendarFile.get_uid == UID of the first sub-component that has one (symbolic UID strings)",
